@@ -8,6 +8,8 @@ Transcribes, from `src/twisted/conch/telnet.py`:
 * `TelnetTransport.writeSequence`     — `self.write(b"".join(seq))` (since the repair of C38's
   defect; before it the method was inherited from `ProtocolTransportMixin` and passed the
   elements raw to `self.transport.writeSequence` — kept below as `writeSequenceRaw`);
+* `Telnet._will/_wont/_do/_dont`, `Telnet.requestNegotiation` — as the bytes they hand to `Telnet._write`
+  (`HOp`, end of file): the sender's own telnet traffic in between application writes;
 * `Telnet.dataReceived`              — the byte-at-a-time state machine over `self.state`
   (`"data"`, `"escaped"`, `"command"`, `"newline"`, `"subnegotiation"`,
   `"subnegotiation-escaped"`), `self.command`, `self.commands` and the *local*
@@ -200,5 +202,62 @@ def nonApp : List Ev → List Ev
   | [] => []
   | .app _ :: es => nonApp es
   | e :: es => e :: nonApp es
+
+/-! ### The loop with an accumulator (what the driver runs)
+
+`loop` appends to `buf` at the end (`buf ++ bs`), which is quadratic in the length of one `dataReceived`
+argument; the driver feeds reads of 64 KiB and more.  `loopAcc` keeps the buffer reversed.  Proved equal to
+`loop` (`TwistedProps.C38.loopAcc_eq`, `feedEachFast_eq`). -/
+
+def loopAcc : St → Bytes → Bytes → Res
+  | st, rbuf, [] => ⟨st, flush rbuf.reverse, none⟩
+  | st, rbuf, b :: rest =>
+    match step st b with
+    | (st', .skip) => loopAcc st' rbuf rest
+    | (st', .push bs) => loopAcc st' (bs.reverse ++ rbuf) rest
+    | (st', .call e) => (loopAcc st' [] rest).prepend (flush rbuf.reverse ++ [e])
+    | (st', .raise e) => ⟨st', [], some e⟩
+    | (st', .flushRaise e) => ⟨st', flush rbuf.reverse, some e⟩
+
+/-- `feedEach` computed with `loopAcc` -/
+def feedEachFast : St → List Bytes → List Res
+  | _, [] => []
+  | st, c :: cs => let r := loopAcc st [] c; r :: feedEachFast r.st cs
+
+/-! ### Histories with the sender's own telnet layer in between
+
+Besides the application's `write` / `writeSequence`, the sending `Telnet` object transmits on its own account,
+through `Telnet._write` (= `self.transport.write`, no escaping):
+* `Telnet._will/_wont/_do/_dont(option)` — `self._write(IAC + WILL/WONT/DO/DONT + option)` (what
+  `will(option)` / `do(option)` do for an option not yet negotiated);
+* `Telnet.requestNegotiation(about, data)` — `data = data.replace(IAC, IAC * 2)`;
+  `self._write(IAC + SB + about + data + IAC + SE)`. -/
+
+inductive HOp where
+  | app (op : Op)                              -- the application writes
+  | cmd (c : UInt8) (opt : UInt8)              -- `self._write(IAC + c + opt)`
+  | subneg (about : UInt8) (data : Bytes)      -- `requestNegotiation(about, data)`
+  deriving Repr, DecidableEq
+
+/-- bytes handed to the underlying transport by one call -/
+def HOp.wire : HOp → Bytes
+  | .app op => op.wire
+  | .cmd c opt => [IAC, c, opt]
+  | .subneg about d => [IAC, SB, about] ++ escIAC d ++ [IAC, SE]
+
+/-- the application bytes of one call -/
+def HOp.payload : HOp → Bytes
+  | .app op => op.payload
+  | _ => []
+
+/-- the `commandReceived` / `negotiate` call the peer's telnet layer owes to one call -/
+def HOp.calls : HOp → List Ev
+  | .app _ => []
+  | .cmd c opt => [.cmd c (some opt)]
+  | .subneg about d => [.neg (about :: d)]
+
+def hwire (h : List HOp) : Bytes := (h.map HOp.wire).flatten
+def hpayload (h : List HOp) : Bytes := (h.map HOp.payload).flatten
+def hcalls (h : List HOp) : List Ev := (h.map HOp.calls).flatten
 
 end Twisted.Telnet.Data
